@@ -16,6 +16,13 @@ Notation val := (list (list T)).
 Definition below (N : nat) (r : ref) : Prop := Forall (fun i => i < N) r.
 Definition dis (a b : ref) : Prop := forall i, In i a -> In i b -> False.
 
+Definition above (N : nat) (r : ref) : Prop := forall i, In i r -> N <= i.
+Lemma above_in N r i : above N r -> In i r -> N <= i.
+Proof. intros Ha; apply Ha. Qed.
+Lemma above_seq a n N : N <= a -> above N (seq a n).
+Proof. intros Hle i Hi; apply in_seq in Hi; lia. Qed.
+Lemma above_mono N M r : above N r -> M <= N -> above M r.
+Proof. intros Ha Hle i Hi; specialize (Ha i Hi); lia. Qed.
 Lemma below_in N r i : below N r -> In i r -> i < N.
 Proof. unfold below; rewrite Forall_forall; auto. Qed.
 Lemma below_mono N M r : below N r -> N <= M -> below M r.
@@ -113,6 +120,8 @@ Ltac nx := repeat first [ rewrite next_put | progress cbn [next] ].
 Ltac in_arith i :=
   repeat match goal with
   | Hi : In i (seq _ _) |- _ => apply in_seq in Hi
+  | Hb : below _ ?r, Ha : above _ ?r, Hi : In i ?r |- _ =>
+      pose proof (below_in _ _ _ Hb Hi); pose proof (above_in _ _ _ Ha Hi); clear Hi
   | Hb : below _ ?r, Hi : In i ?r |- _ => pose proof (below_in _ _ _ Hb Hi); clear Hi
   end.
 Ltac dis_tac :=
